@@ -60,6 +60,15 @@ NEEDS = {
     "C16-3": "`test -o junit` with a rule that has no expectation: counted in the failures attribute of <testsuite>/<testsuites> although no <failure> element exists",
     "C17-3": "`-i <directory>` containing a non-data file (notes.txt, .DS_Store) that sorts before a parameter file: the walk stops there and later parameter files are never merged",
     "C19-3": "two resources of one type setting the same property to the same text with different types (50 and \"50\"): one spelling is lost, the generated rule FAILs on its template",
+    "C03-3": "`not p(args)` for a parameterised rule whose body evaluates to SKIP for those arguments (inversion keyed on FAIL instead of on not-PASS)",
+    "C07-3": "same change as C12-3 (`--structured` merges --input-parameters into the first data file only): console and structured outputs disagree for later data files",
+    "C08-3": "a YAML data file with a `!`-tagged sequence whose tag is not a known short form (`!Cidr [..]`, `!MyMacro` + block list): short_form_to_long reaches unreachable!()",
+    "C10-3": "an unresolved variable-interpolated key (`Resources.%name.Type` with a name that is no key): traversed_to is the variable's own value instead of the map searched",
+    "C11-3": "inside a list, a one-key map with an explicit null value directly followed by a list sibling: `validate` loads [{k: null}, [a, b]] as [{k: [a, b]}]",
+    "C13-3": "two equal maps whose keys are written in a different order, compared through `in [map literals]` or query == query (derived PartialEq also compares the key vector)",
+    "C14-3": "a single-quoted string literal containing an escaped single quote ('it\\'s'): the escape is replaced by a double quote",
+    "C15-3": "a variable interpolated as the last part of a longer query (`Properties.%k`) with `empty`/`!empty` and an empty list/map/string value: treated like the bare-variable exception",
+    "C18-3": "a function argument resolving to several values where a skipped one (non-string in a mixed list, unresolved member) precedes others: results after it are dropped (map_while)",
 }
 
 
@@ -81,20 +90,25 @@ def run_check(prop, env=None):
 
 
 def own():
-    assert sh("git -C /repo diff --quiet").returncode == 0, "/repo has uncommitted changes"
-    head = sh("git -C /repo log --format=%h -n1").stdout.strip()
-    only = sys.argv[2:]
+    # ./seedall.py own [--clone DIR] [names...]: with --clone the patches are applied to DIR (GV_REPO) instead of /repo, e.g. under `vp run --with-repo`
+    args = sys.argv[2:]
+    repo, env = "/repo", None
+    if args and args[0] == "--clone":
+        repo, env, args = args[1], {"GV_REPO": args[1]}, args[2:]
+    assert sh("git -C %s diff --quiet" % repo).returncode == 0, "%s has uncommitted changes" % repo
+    head = sh("git -C %s log --format=%%h -n1" % repo).stdout.strip()
+    only = args
     for seed in seed_names():
         if only and seed not in only:
             continue
         prop = seed[:3]
         d = os.path.join(V, "seeded", seed)
         patch = os.path.join(d, "patch.diff")
-        assert sh("git -C /repo apply %s" % patch).returncode == 0, seed
+        assert sh("git -C %s apply %s" % (repo, patch)).returncode == 0, seed
         try:
-            rc, sigs = run_check(prop)
+            rc, sigs = run_check(prop, env)
         finally:
-            sh("git -C /repo checkout -- .")
+            sh("git -C %s checkout -- ." % repo)
             sh("git -C %s checkout -- evidence/%s.json" % (V, prop))
         conf = json.load(open(os.path.join(d, "confirm.json"))) if os.path.exists(os.path.join(d, "confirm.json")) else {}
         meta = {
